@@ -304,7 +304,7 @@ func (vc *VC) heap(st *State, name, sortS string) *Term {
 		return h
 	}
 	vc.heapSorts[name] = sortS
-	if st.epoch > 0 && !strings.HasPrefix(name, "$Trace") {
+	if st.epoch > 0 && !strings.HasPrefix(name, "$Trace") && !strings.HasPrefix(name, "G[") {
 		// everything was havoc'd since entry: a heap first touched now is unknown, not its entry value
 		h := Var(fmt.Sprintf("%s@e%d", name, st.epoch), sortS)
 		st.heaps[name] = h
@@ -532,7 +532,7 @@ func (vc *VC) join(a, b *State) *State {
 }
 
 func (vc *VC) implicitHeap(st *State, name string) *Term {
-	if st.epoch > 0 && !strings.HasPrefix(name, "$Trace") {
+	if st.epoch > 0 && !strings.HasPrefix(name, "$Trace") && !strings.HasPrefix(name, "G[") {
 		return Var(fmt.Sprintf("%s@e%d", name, st.epoch), vc.heapSorts[name])
 	}
 	return vc.entryHeap(name)
